@@ -2156,6 +2156,12 @@ theorem C19_tap3_reschedules (c : Cfg) (s : St) (t : Int) (i : In) (h : Hist)
     simp only [ne_outcomeHandler]
     exact setNext_next c _ (t + c.frequency) i.d1 hv
 
+/-- Observation (not part of the property statement): `EXPLOIT.probability` is never read — the guard in `_exploit`
+compares the *stage* with `KillChainStageProgress.PENDING` and is always false. The model of `_exploit` therefore does
+not depend on it, and the rig (which varies the setting, including 0) confirms the implementation behaves the same. -/
+theorem C19_tap3_exploit_probability_unused (c : Cfg) (p : Prob) (s : St) :
+    exploit { c with pExploit := p } s = exploit c s := rfl
+
 end Tap3
 
 /-! ## 7. Translator tie: the tables regenerated from the source equal what the models assume -/
